@@ -1,2 +1,3 @@
 import OH.Model.ExtendedTime
 import OH.Props.C19
+import OH.Model.SortedVec
